@@ -29,6 +29,7 @@ ASSUMPTIONS = [
     "solver_settings func_tolerance=1e-9 (step tolerance off) are passed explicitly; residual tolerance 1e-8 x (1 + largest term) on the equations as written; within a frame, leads are read from that frame's databox (the continuation under the frame's information set)",
     "the terminal condition in force is rebuilt by the harness (first-order continuation from the final simulated state, or the input data); the periods after the span in the returned databox hold the input data",
     "equality with first_order is asserted only with terminal='first_order' (or no leads), where it is exact for (log-)linear models",
+    "log-linear family: a reported-success path whose log distance from the steady state exceeds 12 is a collapsed pseudo-solution of the absolute residual test and is not compared with first order",
     "the nonlinear simulators work in levels; deviation mode is not generated",
 ]
 
@@ -183,7 +184,19 @@ def _check(case):
 
     # ---- 3. differential: equals first order on (log-)linear models -----------------------------------
     labels = ["success"]
-    if case["family"] in ("additive", "log") and (case["terminal"] == "first_order" or Fmax == 0 or method == "period_by_period"):
+    degenerate = False
+    if spec["log"]:
+        # Multiplicative equations are met to any absolute tolerance by values collapsing towards zero; the Newton
+        # solver occasionally lands on such a pseudo-solution and reports success.  The first-order comparison is a
+        # statement about the economically meaningful solution, so collapsed paths are counted, not compared.
+        xs_, _ = lm.steady(spec)
+        for j, nm in enumerate(names):
+            a = pO.arr(nm)[Lmax: Lmax + N]
+            if not np.all(np.isfinite(a)) or np.any(a <= 0) or float(np.max(np.abs(np.log(a) - xs_[j]))) > 12.0:
+                degenerate = True
+        if degenerate:
+            labels.append("collapsed_pseudo_solution")
+    if not degenerate and case["family"] in ("additive", "log") and (case["terminal"] == "first_order" or Fmax == 0 or method == "period_by_period"):
         fo = api("simulate_first_order", m.simulate, db, span, method="first_order")
         pF = sd.Paths(fo, spec, start, 0, N - 1)
         for nm in names:
